@@ -26,11 +26,11 @@ CLAIMS = {
    tech="translator-regenerated Lean table + kernel-checked certificate (decide +kernel) + exhaustive correspondence", ref="§7 C02"),
  "C03": dict(
    text="Kernel-checked theorems over the value-level helpers every add/sub/compare/logic handler funnels through (model of AddSub, SetAccFlag, SaturateAcc): the result is the exact integer sum/difference of the 40-bit operands wrapped to 40 bits, carry = carry/borrow out of bit 39, overflow = the exact result does not fit 40 bits signed, zero/minus/extension/normalized flags are exactly those of the 40-bit value, saturation replaces a value that does not fit 32 bits by the nearest bound exactly when the limit flag is set - for all 2^80 operand pairs. Tied to the C++ by direct calls of the real helpers on boundary-biased operands and by executing every opcode of the ALU families on the real interpreter against the transcribed handlers.",
-   note=NOTE_COMMON + " The per-handler composition (which operand is extended how, compare forms writing flags only) is part of the hand-transcribed handler model and is tied by the instruction-level correspondence, not by a theorem.",
+   note=NOTE_COMMON + " Handler-level theorems (Proofs/C03Exec.lean, C03b.lean) cover add/sub/cmp between accumulators, the moda family (inc, dec, neg, rnd, clr, clrr, copy, not, failing condition), the alm logic/tst/cmp forms and operand extension; the remaining handlers of the families compose the same helpers and are tied by the instruction-level correspondence.",
    tech="Lean 4 theorems over BitVec (core overflow lemmas, omega) + helper- and instruction-level correspondence", ref="§7 C03"),
  "C04": dict(
    text="Kernel-checked theorems over the model of DoMultiplication, ProductToBus40 and ShiftBus40: pe:p is the exact 33-bit product of the factors under the sign selection and half-word mode; a product read applies none / floor >>1 / <<1 / <<2 to that exact value; left shifts give value*2^n mod 2^40 with carry = last bit shifted out and overflow iff value*2^n does not fit 40 bits (arithmetic mode), right shifts give floor(value/2^m) (arithmetic) or the zero-filled pattern (logic) with the carry bit and cleared overflow, for every shift amount in [-32768, 32767] and every operand. Tied to the C++ by direct calls of the real helpers (incl. all 65536 shift amounts) and the instruction-level correspondence of the multiply/shift families.",
-   note=NOTE_COMMON + " Exp/norm and the product-sum flag merge are covered by correspondence only so far (no theorem yet); proof automation imports Mathlib.Tactic.Linarith/IntervalCases.",
+   note=NOTE_COMMON + " Exp (redundant sign bits minus eight, normalisation), the end-to-end shifter incl. saturation by the original sign, multiply-accumulate order and the product sum are proved in Proofs/C04b.lean; proof automation imports Mathlib.Tactic.Linarith/IntervalCases.",
    tech="Lean 4 theorems (case split over shift amounts, omega/nlinarith) + helper- and instruction-level correspondence", ref="§7 C04"),
  "C13": dict(
    text="Kernel-checked theorems over the Lean models of dma.cpp and ahbm.cpp: the element trace of a transfer equals the closed-form 3-D strided address list (zero sizes as one, double words aligned), DoDma is the in-order fold of element moves over that list, memory outside the destination set is unchanged, the interrupt handler runs exactly once on completion, SetZ starts only on 0x40C0; aligned 16/32-bit AHBM units perform exactly one external access of that width/address/value, and bursts are transparent when the count is a multiple of the burst length. Tied to the C++ by geometry sweeps and random configurations on the real Dma+Ahbm+SharedMemory objects with logging external callbacks, plus an independent three-loop reference inside the harness.",
